@@ -161,8 +161,8 @@ Proof.
     assert (Hpt : ∀ o,
       (o ∈ c_new c ↔ Q o ∧ o ∈ src ∧ o ∉ dst) ∧ (o ∈ c_missing c ↔ Q o ∧ o ∉ src ∧ o ∉ dst) ∧
       (o ∈ c_ok c ↔ Q o ∧ o ∈ src ∧ o ∈ dst) ∧ (o ∈ c_deleted c ↔ Q o ∧ o ∉ src ∧ o ∈ dst)).
-    { intros o. specialize (Hc o). specialize (Hse o). specialize (Hsm o). specialize (Hde o).
-      specialize (Hdm o). destruct (Hdec o), (Hdec' o); tauto. }
+    { intros o. destruct (Hc o) as (-> & -> & -> & ->). rewrite (Hse o), (Hde o), (Hsm o), (Hdm o).
+      clear -Hdec Hdec'. destruct (Hdec o), (Hdec' o); tauto. }
     clear Hc Hse Hsm Hde.
     split_and!.
     + intros o. apply Hpt.
@@ -171,7 +171,8 @@ Proof.
     + intros [-> Hall]. rewrite orb_false_r in Eb. apply negb_true_iff in Eb.
       apply bool_decide_eq_false in Eb. exfalso. apply Eb. apply set_eq. intros o.
       rewrite Hdm. split; [|set_solver]. intros (Hq & Hn). exfalso. auto.
-    + intros o. specialize (Hpt o). destruct (Hdec o), (Hdec' o); tauto.
+    + intros o. destruct (Hpt o) as (-> & -> & -> & ->). clear -Hdec Hdec'.
+      destruct (Hdec o), (Hdec' o); tauto.
     + intros o. specialize (Hpt o). tauto.
     + intros o. specialize (Hpt o). tauto.
     + intros o. specialize (Hpt o). tauto.
